@@ -65,6 +65,18 @@ def _as_index(np, idx, how):
 
 
 def run_case(case, ctx):
+	if case['kind'] == 'omp_env':
+		# the same kind of case in a fresh interpreter whose OpenMP runtime was configured through the environment
+		# (read once at load time): thread limits below the requested count, dynamic team sizes, other schedules
+		lim = 5 if ctx.tier == 'quick' else 60
+		if ctx.cache.get('c05_omp_env', 0) >= lim and not case.get('force'):
+			return {'nontrivial': False, 'classes': ['omp_env_skipped(budget)']}
+		ctx.cache['c05_omp_env'] = ctx.cache.get('c05_omp_env', 0) + 1
+		from vlib.subcase import run_subcase
+		r = run_subcase(ID, case['inner'], case['env'], ctx.tmpdir)
+		if r:
+			raise Violation('omp_env:' + r[0], f'in a process started with {case["env"]}: {r[1]}', case)
+		return {'nontrivial': True, 'classes': ['omp_env'] + [f'env:{k}' for k in sorted(case['env'])]}
 	import numpy as np
 	from gambit.kmers import KmerSpec
 	from gambit.sigs.base import SignatureArray, SignatureList, dump_signatures, load_signatures
@@ -319,5 +331,20 @@ def bulk_case(draw, tier):
 	}
 
 
+OMP_ENVS = [{'OMP_THREAD_LIMIT': '2'}, {'OMP_THREAD_LIMIT': '3'}, {'OMP_THREAD_LIMIT': '1'}, {'OMP_DYNAMIC': 'true'},
+            {'OMP_DYNAMIC': 'true', 'OMP_THREAD_LIMIT': '5'}, {'OMP_SCHEDULE': 'static'}, {'OMP_SCHEDULE': 'guided,2'},
+            {'OMP_NUM_THREADS': '64'}, {'OMP_NUM_THREADS': '1'}, {'OMP_MAX_ACTIVE_LEVELS': '1', 'OMP_THREAD_LIMIT': '2'},
+            {'OMP_PROC_BIND': 'true'}, {'OMP_WAIT_POLICY': 'active', 'OMP_THREAD_LIMIT': '2'}]
+
+
+@st.composite
+def omp_env_case(draw, tier):
+	inner = draw(bulk_case(tier))
+	inner['threads'] = draw(st.sampled_from([4, 8, 16, 5]))
+	inner['container'] = draw(st.sampled_from(['array', 'list', 'array', 'hdf5']))
+	return {'kind': 'omp_env', 'env': draw(st.sampled_from(OMP_ENVS)), 'inner': inner}
+
+
 def strategy(tier):
-	return bulk_case(tier)
+	rare = st.sampled_from([False] * 12 + [True] + [False] * 12)
+	return rare.flatmap(lambda f: omp_env_case(tier) if f else bulk_case(tier))
